@@ -85,6 +85,16 @@ for ci, c in enumerate(cases):
         rbql_csv.query_csv(q.replace('JOINTBL', jp or 'b'), inp, ',', 'quoted', outp, ',', 'quoted', 'utf-8', [], True)
         recs = read_csv(outp)
         return {'rows': recs[1:], 'header': recs[0] if recs else None} if c['expect_header'] else {'rows': recs, 'header': None}
+    def f_csv_rel():
+        # the same files in a directory of their own, the join table addressed by its bare file name (resolved against the directory of the input table)
+        sub = os.path.join(d, 'rel_%d' % ci)
+        os.mkdir(sub)
+        shutil.copy(inp, os.path.join(sub, 'in.csv'))
+        if jp is not None: shutil.copy(jp, os.path.join(sub, 'jt.csv'))
+        outp = os.path.join(sub, 'out.csv')
+        rbql_csv.query_csv(q.replace('JOINTBL', 'jt.csv'), os.path.join(sub, 'in.csv'), ',', 'quoted', outp, ',', 'quoted', 'utf-8', [], True)
+        recs = read_csv(outp)
+        return {'rows': recs[1:], 'header': recs[0] if recs else None} if c['expect_header'] else {'rows': recs, 'header': None}
     def f_pandas():
         df = pandas.DataFrame(T, columns=c['header'])
         r = rbql_pandas.query_dataframe(q.replace('JOINTBL', 'b'), df, [], None if B is None else pandas.DataFrame(B, columns=JH))
@@ -108,7 +118,7 @@ for ci, c in enumerate(cases):
         conn.close()
         recs = read_csv(outp)
         return {'rows': recs[1:], 'header': recs[0] if recs else None} if c['expect_header'] else {'rows': recs, 'header': None}
-    attempt('query_table', f_table); attempt('query', f_query); attempt('query_csv', f_csv); attempt('pandas', f_pandas); attempt('sqlite', f_sqlite)
+    attempt('query_table', f_table); attempt('query', f_query); attempt('query_csv', f_csv); attempt('query_csv_relative_join', f_csv_rel); attempt('pandas', f_pandas); attempt('sqlite', f_sqlite)
     o['input_path'] = inp
     o['join_path'] = jp
     out.append(o)
@@ -351,7 +361,7 @@ def run(res, tier, seed):
             res.nontrivial.add(c['query'] + '|' + json.dumps(c['table']))
         ref = o['query_table']
         why = None
-        for name in ('query', 'query_csv', 'pandas', 'sqlite'):
+        for name in ('query', 'query_csv', 'query_csv_relative_join', 'pandas', 'sqlite'):
             if o[name] != ref:
                 # pandas names a missing header by integers; only compare when the reference has a header
                 if name == 'pandas' and ref.get('header') is None and o[name].get('rows') == ref.get('rows'):
